@@ -129,6 +129,8 @@ def register(R):
     s.ensures("both_ledgers_same_amount", lambda a, r: Implies(ok(r), And(*charge_parts(a, r).values())), ("C05",))
     s.ensures("neutral_for_counts", lambda a, r: Implies(And(ok(r), a.sim.vehicles.has(a.vehicle_id),
               a.sim.vehicles.get(a.vehicle_id).val().vehicle_state.vehicle_id == a.vehicle_id), neutral(r[1].val(), a.sim, a.vehicle_id)), ("C02",))
+    s.ensures("activity_untouched", lambda a, r: Implies(And(ok(r), a.sim.vehicles.has(a.vehicle_id)),
+              r[1].val().vehicles.get(a.vehicle_id).val().vehicle_state == a.sim.vehicles.get(a.vehicle_id).val().vehicle_state), ("C02", "C18"))
     s.ensures("wf_kept", WF_KEPT, ("C08",))
     s.files(lambda a, r: [(ok(r), "VEHICLE_CHARGE_EVENT", {"vehicle_id": a.vehicle_id, "station_id": a.station_id})])
 
@@ -241,11 +243,21 @@ def register(R):
                                   s2.sim_timestep_duration_seconds == a.sim.sim_timestep_duration_seconds,
                                   s2.applied_instructions == a.sim.applied_instructions))
 
+    def PU_PLUGS(a, r):
+        # an update never changes plug counts, queue counters, prices or the set of stations (only balances / energy)
+        return Implies(ok(r), same_state_maps(r[1].val().stations, a.sim.stations))
+
     for cname in FILE:
         s = R.spec(key(cname, "_perform_update"))
         s.opaque = True
         s.requires("wf", WF_PRE).requires("inv02", INV02_PRE).requires("current", CURRENT)
         s.ensures("shape", SHAPE, ("C09",))
+        s.ensures("plug_counts_untouched", PU_PLUGS, ("C18", "C02"))
+        s.ensures("resources_kept", lambda a, r: Implies(ok(r), resources_same(
+            r[1].val().vehicles.get(a.self.vehicle_id).val().vehicle_state, as_union(a.self))), ("C18", "C02"))
+        s.ensures("activity_kept", (lambda cname: lambda a, r: Implies(ok(r), Or(
+            r[1].val().vehicles.get(a.self.vehicle_id).val().vehicle_state.is_a(cname),
+            r[1].val().vehicles.get(a.self.vehicle_id).val().vehicle_state.is_a("OutOfService"))))(cname), ("C18", "C06"))
         s.ensures("counts_stay_matched", PU_POST, ("C02",))
         s.uses_lemma("L1 sum point-update (lemmas/L1.lean)", PU_L1)
         s.ensures("only_this_vehicle", PU_FRAME, ("C02", "C15", "C08"))
